@@ -93,16 +93,19 @@ class Campaign:
 _ORACLE = re.compile(r'ORACLE-FAIL property=(\S+) signature=(\S+)')
 
 
-def execute(binary, path, env=None, timeout=120):
+def execute(binary, path, env=None, timeout=120, hang_is_failure=False):
     """Run one input through a libFuzzer binary; returns (ok, signature, stderr_text)."""
     try:
         p = subprocess.run([binary, '-detect_leaks=0', '-rss_limit_mb=4096', '-timeout=60', path], env=common.san_env(env or {}),
                            stdout=subprocess.PIPE, stderr=subprocess.PIPE, timeout=timeout)
     except subprocess.TimeoutExpired:
-        return True, 'timeout', ''
+        return (False, 'hang@?', '') if hang_is_failure else (True, 'timeout', '')
     err = p.stderr.decode('utf-8', 'replace')
     if p.returncode == 0:
         return True, None, err
+    if hang_is_failure and 'libFuzzer: timeout' in err:
+        m = re.search(r'#\d+ 0x[0-9a-f]+ in (\w+) /repo/src/([\w.\-]+):', err) or re.search(r'#\d+ 0x[0-9a-f]+ in (\w+) [^\n]*/src/([\w.\-]+):', err)
+        return False, ('hang@%s(%s)' % (m.group(1), m.group(2)) if m else 'hang@?'), err
     m = _ORACLE.search(err)
     if m:
         return False, 'oracle:' + m.group(2), err
@@ -113,6 +116,27 @@ def execute(binary, path, env=None, timeout=120):
         return True, 'noise', err
     m = re.search(r'ERROR: libFuzzer: deadly signal', err)
     return False, 'crash:signal' if m else 'crash:rc=%d' % p.returncode, err
+
+
+def confirm_hangs(binary, art_dir, env=None, limit=3, secs=60):
+    """libFuzzer's per-unit time limit in a 16-way loaded fork campaign is load noise -- unless the input really does not finish.  The
+    smallest `limit` timeout artifacts are re-executed alone with a generous limit; returns {signature: [paths]} for those that still
+    exceed it (signature = innermost project function on the stack that libFuzzer prints)."""
+    out = {}
+    paths = sorted(glob.glob(os.path.join(art_dir, 'timeout-*')), key=lambda p: os.path.getsize(p))[:limit]
+    for p in paths:
+        try:
+            r = subprocess.run([binary, '-detect_leaks=0', '-rss_limit_mb=6000', '-timeout=%d' % secs, p], env=common.san_env(env or {}),
+                               stdout=subprocess.PIPE, stderr=subprocess.PIPE, timeout=secs + 60)
+            err = r.stderr.decode('utf-8', 'replace')
+        except subprocess.TimeoutExpired:
+            err = 'libFuzzer: timeout (killed)'
+        if 'libFuzzer: timeout' not in err:
+            continue
+        m = re.search(r'#\d+ 0x[0-9a-f]+ in (\w+) /repo/src/([\w.\-]+):', err) or re.search(r'#\d+ 0x[0-9a-f]+ in (\w+) [^\n]*/src/([\w.\-]+):', err)
+        sig = 'hang@%s(%s)' % (m.group(1), m.group(2)) if m else 'hang@?'
+        out.setdefault(sig, []).append(p)
+    return out
 
 
 def classify_artifacts(binary, paths, env=None, limit=400):
